@@ -42,6 +42,7 @@ Section DriverReach.
       destruct (do_link (core d) a p) as [s1 ok]. destruct ok; simpl; rs.
     - destruct (g_post _); simpl; auto. rs.
     - destruct (stop_req _); simpl; [rs|].
+      destruct (supq _); simpl; auto.
       destruct (queue _) as [|m q]; simpl; auto.
       destruct m; simpl; auto; rs.
     - destruct (g_h _); simpl; auto.
@@ -64,6 +65,18 @@ Section DriverReach.
 
   Local Arguments settle : simpl never.
 
+  Lemma fold_stop_reach : forall l d, reachable r (core d) -> reachable r (core (fold_left d_stop l d)).
+  Proof.
+    induction l as [|a l IH]; intros d H; simpl; auto. apply IH. unfold d_stop.
+    destruct (alive_phase _); simpl; auto.
+  Qed.
+
+  Lemma fold_drain_reach : forall l d, reachable r (core d) -> reachable r (core (fold_left (d_drain r) l d)).
+  Proof.
+    induction l as [|a l IH]; intros d H; simpl; auto. apply IH. unfold d_drain.
+    destruct (alive_phase _); simpl; auto. now apply reachable_step.
+  Qed.
+
   Lemma dstep_reach : forall o d, reachable r (core d) -> reachable r (core (dstep r o d)).
   Proof.
     intros o d H. destruct o; simpl; auto.
@@ -73,6 +86,8 @@ Section DriverReach.
     - destruct (alive_phase _); simpl; auto. now apply reachable_step.
     - destruct (alive_phase _); simpl; auto. now apply reachable_step.
     - destruct (alive_phase _); simpl; auto.
+    - now apply fold_stop_reach.
+    - now apply fold_drain_reach.
     - destruct (phs _); simpl; auto. rs.
     - now apply reachable_step.
     - now apply reachable_step.
